@@ -1,19 +1,33 @@
 (* C01 - IR ownership and pin-wire links stay mutually consistent under any edit history.
    Property theorems only; each is closed by [exact] of a lemma proved under Proofs/. *)
 From Coq Require Import List Permutation.
-From SV Require Import Base.Base IR.State IR.NS IR.Ops Proofs.Inv1a Proofs.C01_lemmas.
+From SV Require Import Base.Base IR.State IR.NS IR.Ops Proofs.Inv1a Proofs.C01_lemmas
+  Proofs.Inv2a Proofs.InvP Proofs.InvW Proofs.C01_full.
 
-(* containment half, one step: any op, any arguments, any outcome except the stuck one *)
-Theorem C01_containment_step : forall s o,
-  Inv1a s -> snd (step s o) <> Some XStuck -> Inv1a (fst (step s o)).
-Proof. exact step_inv1a. Qed.
-Print Assumptions C01_containment_step.
+(* one step: ANY op of the model of the public mutators, any arguments (valid or not, proxy outer
+   pins included), any outcome (accepted / refused by an assert / refused by the naming rules):
+   the full invariant is kept and the call is never stuck half-way through a bulk update *)
+Theorem C01_step : forall s o, Inv s -> Inv (fst (step s o)) /\ snd (step s o) <> Some XStuck.
+Proof. exact step_inv. Qed.
+Print Assumptions C01_step.
 
-(* containment half, every prefix of every history from the empty heap *)
-Theorem C01_containment_reachable : forall ops1 ops2,
-  never_stuck (ops1 ++ ops2) init -> Inv1a (run ops1 init).
-Proof. exact run_inv1a_prefix. Qed.
-Print Assumptions C01_containment_reachable.
+(* every prefix of every history from the empty heap *)
+Theorem C01_reachable : forall ops, Inv (run ops init).
+Proof. exact reachable_inv. Qed.
+Print Assumptions C01_reachable.
+
+(* ... which says: every container lists exactly the elements that name it as parent, once *)
+Theorem C01_containers : forall s, Inv s ->
+  (forall r p x, In x (kids s r p) <-> par s r x = Some p) /\ (forall r p, NoDup (kids s r p)).
+Proof. intros s H. split; [exact (inv_container s H)|exact (inv_container_once s H)]. Qed.
+Print Assumptions C01_containers.
+
+(* ... and a wire lists exactly the pins that report it (for an outer pin: the pin stored by its
+   instance for that inner pin), once *)
+Theorem C01_pins_and_wires : forall s, Inv s ->
+  (forall w p, In p (wpins s w) <-> pin_wire s p = Some w) /\ (forall w, NoDup (wpins s w)).
+Proof. intros s H. split; [exact (inv_wire_pins s H)|exact (inv_wire_once s H)]. Qed.
+Print Assumptions C01_pins_and_wires.
 
 (* reorder assignments only permute; a refused reorder changes nothing *)
 Theorem C01_reorder : forall s r p l,
@@ -23,3 +37,16 @@ Theorem C01_reorder : forall s r p l,
   (snd res <> None -> fst res = s).
 Proof. exact reorder_permutes. Qed.
 Print Assumptions C01_reorder.
+
+(* the containment half alone needs no other invariant (kept from the first proof round) *)
+Theorem C01_containment_step : forall s o,
+  Inv1a s -> snd (step s o) <> Some XStuck -> Inv1a (fst (step s o)).
+Proof. exact step_inv1a. Qed.
+Print Assumptions C01_containment_step.
+
+(* the hypotheses are satisfiable by a non-trivial reachable state *)
+Example C01_nonvacuous :
+  let s := run sample_ops init in
+  wpins s 7 = (POut 5 2 :: PIn 3 :: nil) /\ keys s 5 = (2 :: 3 :: nil) /\ drefs s 0 = (5 :: nil) /\
+  pin_wire s (POut 5 2) = Some 7.
+Proof. exact sample_reachable. Qed.
